@@ -460,7 +460,10 @@ pub fn run_c11(cx: &Ctx) -> i32 {
                             (Some(e), Ok((s, false))) if s == e => {}
                             _ => viol(&mut t, text, format!("try_replacen({}, {:?}) = {:?} (borrowed flag second), expected {:?} (None = borrowed input); matches {:?}", n, tpl, got, exp, matches)),
                         }
-                        // &String and Cow replacers behave like &str
+                        // &String and Cow replacers behave like &str (one expanding and one plain template)
+                        if *tpl != "<$0|$1>" && *tpl != "x" {
+                            continue;
+                        }
                         let owned = tpl.to_string();
                         let via_string = catch_unwind(AssertUnwindSafe(|| re.try_replacen(text, n, &owned).map(|c| c.into_owned()))).ok().and_then(|r| r.ok());
                         let cow: std::borrow::Cow<str> = std::borrow::Cow::Borrowed(tpl);
